@@ -220,6 +220,20 @@ func Main(args []string) error {
 			emit("default", fmt.Sprintf("query Q($v: T = %s) { r: %s(x: $v) }", lit, c.F), map[string]interface{}{})
 			emit("default_null", fmt.Sprintf("query Q($v: T = %s) { r: %s(x: $v) }", lit, c.F), map[string]interface{}{"v": nil})
 		}
+		// the same through a named fragment (its arguments are parsed apart from the operation's) and an inline one
+		for _, fq := range [][2]string{{"frag", "{ ...F } fragment F on Query { r: %[1]s(x: %[2]s) }"}, {"inline", "{ ... on Query { r: %[1]s(x: %[2]s) } }"}} {
+			if absent {
+				emit(fq[0]+"_variable", fmt.Sprintf("query Q($v: T) "+fq[1], c.F, "$v"), map[string]interface{}{})
+			} else {
+				emit(fq[0]+"_variable", fmt.Sprintf("query Q($v: T) "+fq[1], c.F, "$v"), map[string]interface{}{"v": c.J.To()})
+			}
+			if !absent && !hasNull(c.J) {
+				lit := literal(c.J, d)
+				emit(fq[0]+"_literal", fmt.Sprintf(fq[1], c.F, lit), nil)
+				emit(fq[0]+"_default", fmt.Sprintf("query Q($v: T = %[3]s) "+fq[1], c.F, "$v", lit), map[string]interface{}{})
+				emit(fq[0]+"_default_null", fmt.Sprintf("query Q($v: T = %[3]s) "+fq[1], c.F, "$v", lit), map[string]interface{}{"v": nil})
+			}
+		}
 		if !absent && c.J.K != "n" {
 			// a supplied non-null value wins over the default
 			other := map[string]string{"i": "12345", "s": "\"other\"", "b": "false", "a": "[]", "o": "{zzz: 1}"}[c.J.K]
